@@ -131,7 +131,10 @@ func (FrameMonitor) Post(e *Explorer, before, w *World, pre interface{}, ev *Eve
 				addSelectorsOf(before, allowStake, x.Creator)
 			}
 		case *reportertypes.MsgRemoveSelector:
-			allowSelect[x.SelectorAddress] = true
+			// the exception covers only a selector that fell below its reporter's minimum
+			if selectorBelowMin(before, x.SelectorAddress) {
+				allowSelect[x.SelectorAddress] = true
+			}
 		case *registrytypes.MsgRegisterSpec:
 			_ = x
 		}
@@ -235,4 +238,30 @@ func addSelectorsOf(w *World, set map[string]bool, reporter string) {
 		}
 		return false, nil
 	})
+}
+
+// selectorBelowMin: the selector's stake with bonded validators (all its delegations together) is below the minimum its reporter asks for.
+func selectorBelowMin(w *World, selector string) bool {
+	sa, err := sdk.AccAddressFromBech32(selector)
+	if err != nil {
+		return false
+	}
+	sel, err := w.App.ReporterKeeper.Selectors.Get(w.Ctx, sa)
+	if err != nil {
+		return false
+	}
+	rep, err := w.App.ReporterKeeper.Reporters.Get(w.Ctx, sel.Reporter)
+	if err != nil {
+		return false
+	}
+	bonded := math.ZeroInt()
+	sk := w.App.StakingKeeper
+	_ = sk.IterateDelegatorDelegations(w.Ctx, sa, func(d stakingtypes.Delegation) bool {
+		va, _ := sdk.ValAddressFromBech32(d.ValidatorAddress)
+		if val, err := sk.GetValidator(w.Ctx, va); err == nil && val.IsBonded() {
+			bonded = bonded.Add(val.TokensFromShares(d.Shares).TruncateInt())
+		}
+		return false
+	})
+	return bonded.LT(rep.MinTokensRequired)
 }
